@@ -8,6 +8,12 @@ PY = "/venv/bin/python"
 
 # id -> (technique, level text, level note, design ref)
 CHECKS = {
+    "C11": (
+        "exhaustive enumeration of inline-element adjacencies x containers + Hypothesis over corpus documents, with metamorphic oracle (pretty/folder/flat save == plain save up to ignorable white space; memory unchanged; save sequences idempotent) read through lxml",
+        "Every ordered adjacency of 12 inline kinds up to length 3 is placed in paragraphs, headings, list items, cells, note bodies and text boxes and saved plain, pretty, as folder and as flat XML, in several save sequences; paragraph projections, element skeleton, attribute multiset and leaf texts must equal those of the plain save, the in-memory parts must be byte-identical before and after each save, and the final plain output must be C14N-identical. The same is done for the templates and the corpus documents with short edit histories.",
+        "Trusts lib/odfread.plain_projection (ODF white-space rules); flat XML judged on content inclusion (non-empty paragraphs).",
+        "DESIGN.md 3/C11",
+    ),
     "C03": (
         "model-based stateful testing of document histories (Hypothesis RuleBasedStateMachine) with an independent package model and zipfile/os.walk + lxml C14N readers; bounded ddmin",
         "Documents from the templates and the whole sample corpus (opened lazily by path, from BytesIO, from an independently written folder) go through generated edit/add/delete/set_part/read histories with saves in every packaging and reopen cycles; each saved package is compared part by part with the package model, the in-memory parts and the reopened document.",
